@@ -60,71 +60,114 @@ Section Sound.
     eapply adds_only_trans; [exact H1|apply IH].
   Qed.
 
-  Lemma compound_sound n v :
-    plain n = true -> (is_nameable v = false -> sound v) ->
-    forall s, adds_only ((AGet, spell n) :: (if is_nameable v then [] else occs false v)) s (snd (compound_body n v Load (V v) s)).
+  Lemma adds_only_bind {A B} (m : M A) (k : A -> M B) L1 L2 :
+    (forall s, adds_only L1 s (snd (m s))) -> (forall a s, adds_only L2 s (snd (k a s))) ->
+    forall s, adds_only (L1 ++ L2) s (snd (bind m k s)).
   Proof.
-    intros Hp Hv s. unfold compound_body.
-    destruct (get_and_verify_cf n Load s Hp) as [Hok _]. rewrite (bind_ok _ _ s _ Hok).
-    destruct (gv_frame n Load s Hp) as (Fg & Fs & Fd & Fc).
-    set (s1 := snd (get_and_verify_name n Load s)) in *.
-    destruct (is_nameable v) eqn:En.
-    - unfold bind, ret. simpl. repeat split; simpl; try congruence.
-      intros x Hx. apply rmem_radd_inv in Hx. destruct Hx as [Hx|Hx].
-      + right. left. apply rname_eqb_fst in Hx. simpl in Hx. rewrite Hx. reflexivity.
-      + left. rewrite <- Fg. exact Hx.
-    - unfold bind. destruct (V v s1) as [o s2] eqn:E.
-      pose proof (Hv eq_refl s1) as H1. rewrite E in H1. simpl in H1. destruct H1 as (g1 & r1 & r2 & r3).
-      destruct o; simpl.
-      + repeat split; simpl; try congruence.
-        intros x Hx. apply rmem_radd_inv in Hx. destruct Hx as [Hx|Hx].
-        * right. left. apply rname_eqb_fst in Hx. simpl in Hx. rewrite Hx. reflexivity.
-        * destruct (g1 x Hx) as [H|H]; [left; rewrite <- Fg; exact H|right; right; exact H].
-      + repeat split; try congruence. intros x Hx. destruct (g1 x Hx) as [H|H]; [left; rewrite <- Fg; exact H|right; right; exact H].
-      + repeat split; try congruence. intros x Hx. destruct (g1 x Hx) as [H|H]; [left; rewrite <- Fg; exact H|right; right; exact H].
-      + repeat split; try congruence. intros x Hx. destruct (g1 x Hx) as [H|H]; [left; rewrite <- Fg; exact H|right; right; exact H].
+    intros Hm Hk s. unfold bind. pose proof (Hm s) as H1. destruct (m s) as [o s1]. simpl in H1.
+    destruct o; simpl; try (eapply adds_only_weaken; [|exact H1]; intros; apply in_or_app; left; assumption).
+    eapply adds_only_trans; [exact H1 | apply Hk].
   Qed.
 
-  Theorem call_free_loads_report_nothing_else : forall n, CF n -> sound n.
+  Lemma add_get_adds x s : adds_only [(AGet, fst x)] s (snd (add_get x s)).
+  Proof.
+    unfold add_get. simpl. repeat split; simpl; try reflexivity.
+    intros y Hy. apply rmem_radd_inv in Hy. destruct Hy as [Hy|Hy]; [|left; exact Hy].
+    right. left. apply rname_eqb_fst in Hy. rewrite Hy. reflexivity.
+  Qed.
+
+  (* the visit of the slices passed over by a name adds nothing but their occurrences *)
+  Definition slices_sound (m : node) : Prop := forall s, adds_only (inner false m) s (snd (spine_with V m s)).
+
+  Lemma compound_sound n v m2 L2 :
+    plain n = true -> (is_nameable v = false -> sound v) -> (forall s, adds_only L2 s (snd (m2 s))) ->
+    forall s, adds_only ((AGet, spell n) :: (if is_nameable v then [] else occs false v) ++ L2) s (snd (compound_body n v Load (V v) m2 s)).
+  Proof.
+    intros Hp Hv H2 s. unfold compound_body.
+    destruct (get_and_verify_cf n Load s Hp) as [Hok _]. rewrite (bind_ok _ _ s _ Hok).
+    destruct (gv_frame n Load s Hp) as (Fg & Fs & Fd & Fc).
+    set (s1 := snd (get_and_verify_name n Load s)) in *. cbn [fst snd].
+    assert (Hrest : adds_only (((if is_nameable v then [] else occs false v) ++ L2) ++ [(AGet, spell n)]) s1
+                      (snd (((if is_nameable v then ret tt else V v) ;;; m2 ;;; update_results (spell n, spell_base n) Load) s1))).
+    { rewrite <- app_assoc. apply adds_only_bind.
+      - intros s0. destruct (is_nameable v) eqn:En; [apply adds_only_refl | exact (Hv eq_refl s0)].
+      - intros _. apply adds_only_bind; [exact H2|]. intros _ s0. exact (add_get_adds (spell n, spell_base n) s0). }
+    destruct Hrest as (g & r1 & r2 & r3). repeat split; try congruence.
+    intros x Hx. destruct (g x Hx) as [H|H]; [left; rewrite <- Fg; exact H|]. right.
+    apply in_app_or in H as [H|[H|[]]]; [right; exact H | left; exact H].
+  Qed.
+
+  Theorem call_free_loads_report_nothing_else_and_slices : forall n, CF n -> sound n /\ slices_sound n.
   Proof.
     induction n using node_children_ind. rename H into IH. intros Hcf.
     pose proof (all_here _ _ Hcf) as Hl. pose proof (cf_plain n Hcf) as Hp.
-    assert (Hkids : Forall sound (children n)).
+    assert (Hkids2 : Forall (fun x => sound x /\ slices_sound x) (children n)).
     { rewrite Forall_forall in IH |- *. intros x Hx. apply IH; [exact Hx|apply (cf_child _ _ Hcf Hx)]. }
+    assert (Hkids : Forall sound (children n)).
+    { rewrite Forall_forall in Hkids2 |- *. intros x Hx. exact (proj1 (Hkids2 x Hx)). }
+    assert (Htriv : forall m, spine_with V m = ret tt -> slices_sound m).
+    { intros m E1 s. rewrite E1. apply adds_only_refl. }
     destruct n; simpl in Hl; try contradiction.
-    - destruct c; try contradiction. intros s. rewrite visit_name.
+    - destruct c; try contradiction. split; [|apply Htriv; reflexivity]. intros s. rewrite visit_name.
       destruct (get_and_verify_cf (EName id Load p) Load s Hp) as [Hok _]. rewrite (bind_ok _ _ s _ Hok).
       destruct (gv_frame (EName id Load p) Load s Hp) as (Fg & Fs & Fd & Fc). simpl.
       repeat split; simpl; try congruence.
       intros x Hx. apply rmem_radd_inv in Hx. destruct Hx as [Hx|Hx].
       + right. left. apply rname_eqb_fst in Hx. simpl in Hx. rewrite Hx. reflexivity.
       + left. rewrite <- Fg. exact Hx.
-    - destruct c; try contradiction. intros s. rewrite visit_attr.
-      simpl in Hkids. inversion Hkids as [|? ? Hv _]; subst.
-      eapply adds_only_weaken; [|apply (compound_sound (EAttr n a Load p) n Hp (fun _ => Hv) s)].
-      intros o Ho. cbn [occs]. rewrite (kf_c10_plain _ Hp), (spell_u_spell _ Hcf).
-      destruct Ho as [<-|Ho]; [left; reflexivity|]. right.
-      destruct (is_nameable n); [destruct Ho|exact Ho].
-    - destruct c; try contradiction. intros s. rewrite visit_sub.
-      simpl in Hkids. inversion Hkids as [|? ? Hv _]; subst.
-      eapply adds_only_weaken; [|apply (compound_sound (ESub n1 n2 Load p) n1 Hp (fun _ => Hv) s)].
-      intros o Ho. cbn [occs]. rewrite (kf_c10_plain _ Hp), (spell_u_spell _ Hcf), app_nil_r.
-      destruct Ho as [<-|Ho]; [left; reflexivity|]. right.
-      destruct (is_nameable n1); [destruct Ho|exact Ho].
-    - destruct c; try contradiction. intros s. rewrite visit_star.
-      simpl in Hkids. inversion Hkids as [|? ? Hv _]; subst.
-      eapply adds_only_weaken; [|apply (compound_sound (EStar n Load p) n Hp (fun _ => Hv) s)].
-      intros o Ho. cbn [occs]. rewrite (kf_c10_plain _ Hp), (spell_u_spell _ Hcf).
-      destruct Ho as [<-|Ho]; [left; reflexivity|]. right.
-      destruct (is_nameable n); [destruct Ho|exact Ho].
-    - intros s. rewrite visit_const. apply adds_only_refl.
-    - intros s. rewrite visit_seq. simpl in Hkids. cbn [occs]. rewrite olist_flat_map. apply VL_sound. exact Hkids.
-    - intros s. rewrite visit_dict. simpl in Hkids. apply Forall_app in Hkids. destruct Hkids as [Hks Hvs].
+    - destruct c; try contradiction.
+      simpl in Hkids2. pose proof (Forall_inv Hkids2) as [Hv Hsv].
+      assert (Hsl : forall s, adds_only (if is_nameable n then inner false n else []) s (snd (spine_with V n s))).
+      { intros s. destruct (is_nameable n) eqn:En; [exact (Hsv s)|].
+        eapply adds_only_weaken; [|exact (Hsv s)]. intros o Ho. rewrite (inner_cf_other n (cf_child _ _ Hcf (or_introl eq_refl)) En) in Ho. exact Ho. }
+      split.
+      + intros s. rewrite visit_attr.
+        eapply adds_only_weaken; [|apply (compound_sound (EAttr n a Load p) n _ _ Hp (fun _ => Hv) Hsl s)].
+        intros o Ho. cbn [occs]. rewrite (kf_c10_plain _ Hp), (spell_u_spell _ Hcf).
+        destruct Ho as [<-|Ho]; [left; reflexivity|]. right.
+        destruct (is_nameable n); [exact Ho | rewrite app_nil_r in Ho; exact Ho].
+      + intros s. cbn [spine_with inner]. exact (Hsl s).
+    - destruct c; try contradiction.
+      simpl in Hkids2. pose proof (Forall_inv Hkids2) as [Hv Hsv]. pose proof (Forall_inv (Forall_inv_tail Hkids2)) as [Hgsl _].
+      assert (Hsv' : forall s, adds_only (if is_nameable n1 then inner false n1 else []) s (snd (spine_with V n1 s))).
+      { intros s. destruct (is_nameable n1) eqn:En; [exact (Hsv s)|].
+        eapply adds_only_weaken; [|exact (Hsv s)]. intros o Ho. rewrite (inner_cf_other n1 (cf_child _ _ Hcf (or_introl eq_refl)) En) in Ho. exact Ho. }
+      assert (Hsl : forall s, adds_only (occs false n2 ++ (if is_nameable n1 then inner false n1 else [])) s (snd ((V n2 ;;; spine_with V n1) s))).
+      { apply adds_only_bind; [exact Hgsl | intros _; exact Hsv']. }
+      split.
+      + intros s. rewrite visit_sub.
+        eapply adds_only_weaken; [|apply (compound_sound (ESub n1 n2 Load p) n1 _ _ Hp (fun _ => Hv) Hsl s)].
+        intros o Ho. cbn [occs]. rewrite (kf_c10_plain _ Hp), (spell_u_spell _ Hcf).
+        destruct Ho as [<-|Ho]; [left; reflexivity|]. right. cbn [app].
+        apply in_app_or in Ho as [Ho|Ho].
+        * apply in_or_app. left. destruct (is_nameable n1); [destruct Ho | exact Ho].
+        * apply in_app_or in Ho as [Ho|Ho]; apply in_or_app; [right; exact Ho | left].
+          destruct (is_nameable n1); [exact Ho | destruct Ho].
+      + intros s. cbn [spine_with inner]. eapply adds_only_weaken; [|exact (Hsl s)].
+        intros o Ho. apply in_app_or in Ho as [Ho|Ho]; apply in_or_app; [right; exact Ho | left; exact Ho].
+    - destruct c; try contradiction.
+      simpl in Hkids2. pose proof (Forall_inv Hkids2) as [Hv Hsv].
+      assert (Hsl : forall s, adds_only (if is_nameable n then inner false n else []) s (snd (spine_with V n s))).
+      { intros s. destruct (is_nameable n) eqn:En; [exact (Hsv s)|].
+        eapply adds_only_weaken; [|exact (Hsv s)]. intros o Ho. rewrite (inner_cf_other n (cf_child _ _ Hcf (or_introl eq_refl)) En) in Ho. exact Ho. }
+      split.
+      + intros s. rewrite visit_star.
+        eapply adds_only_weaken; [|apply (compound_sound (EStar n Load p) n _ _ Hp (fun _ => Hv) Hsl s)].
+        intros o Ho. cbn [occs]. rewrite (kf_c10_plain _ Hp), (spell_u_spell _ Hcf).
+        destruct Ho as [<-|Ho]; [left; reflexivity|]. right.
+        destruct (is_nameable n); [exact Ho | rewrite app_nil_r in Ho; exact Ho].
+      + intros s. cbn [spine_with inner]. exact (Hsl s).
+    - split; [|apply Htriv; reflexivity]. intros s. rewrite visit_const. apply adds_only_refl.
+    - split; [|apply Htriv; reflexivity]. intros s. rewrite visit_seq. simpl in Hkids. cbn [occs]. rewrite olist_flat_map. apply VL_sound. exact Hkids.
+    - split; [|apply Htriv; reflexivity]. intros s. rewrite visit_dict. simpl in Hkids. apply Forall_app in Hkids. destruct Hkids as [Hks Hvs].
       cbn [occs]. rewrite !olist_flat_map. unfold bind.
       pose proof (VL_sound ks Hks s) as H1. destruct (VL ks s) as [o s1]. simpl in H1.
       destruct o; simpl; try (eapply adds_only_weaken; [|exact H1]; intros; apply in_or_app; left; assumption).
       eapply adds_only_trans; [exact H1|apply VL_sound; exact Hvs].
-    - destruct binds; try contradiction. intros s. rewrite visit_other. simpl in Hkids.
+    - destruct binds; try contradiction. split; [|apply Htriv; reflexivity]. intros s. rewrite visit_other. simpl in Hkids.
       cbn [occs]. rewrite olist_flat_map. apply VL_sound. exact Hkids.
   Qed.
+
+  Theorem call_free_loads_report_nothing_else : forall n, CF n -> sound n.
+  Proof. intros n H. exact (proj1 (call_free_loads_report_nothing_else_and_slices n H)). Qed.
 End Sound.
